@@ -417,12 +417,24 @@ class Session:
             return real_handle_output(*a, **kw)
 
         tmain.handle_output = handle_output_probe
+        # the hidden --debug flag only changes logger levels; the harness keeps logging switched
+        # off (import-time basicConfig(DEBUG) would flood stderr), so for a --debug run the loggers
+        # are live for this one call, with a sink instead of the stream handler
+        debug_run = "--debug" in argv
+        root_logger = logging.getLogger()
+        saved_handlers = root_logger.handlers[:]
+        if debug_run:
+            root_logger.handlers = [logging.NullHandler()]
+            logging.disable(logging.NOTSET)
         try:
             try:
                 tmain.main()
             except SystemExit as e:
                 code = e.code if isinstance(e.code, (int, type(None))) else str(e.code)
         finally:
+            if debug_run:
+                logging.disable(logging.CRITICAL)
+                root_logger.handlers = saved_handlers
             sys.argv = old_argv
             tmain.handle_output = real_handle_output
             ev["handle_output_error"] = seen[:1] if seen else None
@@ -699,6 +711,10 @@ class Session:
             tracer.exc_obj = None
         if tracer is not None:
             ev["events"] = tracer.events
+            if tracer.mode == "enumerate_lines":
+                ev["sites"] = tracer.sites
+                ev["site_lines"] = tracer.lines
+                ev["site_first_lines"] = tracer.first_lines
             if tracer.mode == "enumerate":
                 ev["sites"] = tracer.sites
                 ev["detector_events"] = tracer.detector_events
